@@ -51,9 +51,20 @@ pub fn slice_cases(default_mode: &str, cases: &[J], out: &mut Out) {
         let mode = case.get("mode").and_then(|m| m.as_str()).unwrap_or(default_mode);
         match mode {
             "round" | "prefix" | "enc" => {
-                let m: Message = unproj::message(&case["m"]);
+                let mut m: Message = unproj::message(&case["m"]);
                 let sh = m.storage_header.is_some();
                 out.calls += 1;
+                // the generated value records the payload length of the reference layout; C01 / C05 speak about a message whose payload
+                // length is the one its own serialisation has (the layout itself is C02: mode "enc" keeps the value as generated)
+                let mut casem = case["m"].clone();
+                if mode != "enc" {
+                    let own = crate::gen::own_payload_len(&m);
+                    if own != m.header.payload_length as usize && own <= 65535 {
+                        m.header.payload_length = own as u16;
+                        casem = proj::message(&m);
+                        *out.classes.entry("replay:payload-length-of-own-serialisation".into()).or_insert(0) += 1;
+                    }
+                }
                 let b = match catch_unwind(AssertUnwindSafe(|| m.as_bytes())) {
                     Ok(b) => b,
                     Err(_) => { if mode == "enc" { mismatch(out, "as_bytes", case, json!({"v": "bytes"}), json!({"v": "panic"})); } continue; }
@@ -73,9 +84,9 @@ pub fn slice_cases(default_mode: &str, cases: &[J], out: &mut Out) {
                         x.extend_from_slice(s);
                         out.calls += 1;
                         let r = slice::parse_res(&x, None, sh, true);
-                        let ok = r["v"] == "msg" && r["m"] == case["m"] && r["consumed"] == json!(b.len()) && r["rest"] == proj::bytes(s);
+                        let ok = r["v"] == "msg" && r["m"] == casem && r["consumed"] == json!(b.len()) && r["rest"] == proj::bytes(s);
                         if !ok {
-                            mismatch(out, "parse(as_bytes(m)++suffix)", case, json!({"v": "msg", "consumed": b.len(), "m": case["m"], "rest": proj::bytes(s)}), r);
+                            mismatch(out, "parse(as_bytes(m)++suffix)", case, json!({"v": "msg", "consumed": b.len(), "m": casem, "rest": proj::bytes(s)}), r);
                         }
                     }
                 } else {
@@ -224,7 +235,15 @@ pub fn slice_cases(default_mode: &str, cases: &[J], out: &mut Out) {
                 let got = slice::rerun(&case["ev"]);
                 out.calls += 1;
                 let (r, e) = (&got["res"], &case["expect"]);
-                if e["v"] == "msg" {
+                // control: the same message with plain ids; if the code returns no message for it either, the refusal is not about the ids
+                let mut cb = unproj::bytes(&case["ev"]["buf"]);
+                let ctrl_ok = if cb.len() == 22 {
+                    cb[4..8].copy_from_slice(b"ECU\0");
+                    cb[10..18].copy_from_slice(b"APP\0CTX\0");
+                    out.calls += 1;
+                    slice::parse_res(&cb, None, false, false)["v"] == "msg"
+                } else { true };
+                if e["v"] == "msg" && ctrl_ok {
                     let ok = r["v"] == "msg" && r["m"]["h"]["ecu"] == e["m"]["h"]["ecu"] && r["m"]["x"] .get(0).map(|x| (&x["ap"], &x["ct"])) == e["m"]["x"].get(0).map(|x| (&x["ap"], &x["ct"]));
                     if !ok {
                         mismatch(out, "ids", case, e.clone(), r.clone());
